@@ -579,6 +579,13 @@ def worker(args) -> Dict[str, Any]:
             chk.count("models_skipped_for_budget", len(range(i, n_models, n_shards)))
             break
         gen = c15_bounds.generate(chk.rng("model", i))
+        if i % 3 == 1:
+            # the declaration order of enumerations and constrained primitives is free:
+            # descendants may come before their ancestors
+            shuffled = mmgen.shuffle_class_order(gen.text, chk.rng("order", i))
+            if shuffled != gen.text:
+                gen.text = shuffled
+                chk.count("models_with_permuted_declaration_order")
         chk.hist("modes", gen.mode)
         chk.hist("class_shapes", gen.shape)
         ModelCheck(chk, f"bounds/{chk.seed}/{i}", gen.text, gen).run()
